@@ -166,8 +166,11 @@ def spec_call(E, name, node, st, fr):
         # stating it keeps the fact usable after the intermediate heap version has been pruned at a loop head
         if ("alloc",) not in E.heap0:
             E.heap0[("alloc",)] = z3.Const("H0_alloc", E.key_sort(("alloc",)))
-        return V(BOOL, z3.And(v.z != ty.null, z3.Not(z3.Select(E.alloc(fr.old), v.z)), z3.Select(E.alloc(st), v.z),
-                              z3.Not(z3.Select(E.heap0[("alloc",)], v.z))))
+        parts = [v.z != ty.null, z3.Not(z3.Select(E.alloc(fr.old), v.z)), z3.Select(E.alloc(st), v.z),
+                 z3.Not(z3.Select(E.heap0[("alloc",)], v.z))]
+        if getattr(E, "_assume_site", None):
+            parts.append(E.ufn("birth", ty.RefSort, z3.IntSort())(v.z) == E._assume_site)
+        return V(BOOL, z3.And(*parts))
     if name == "allocated":
         v = E.ev(A[0], st, fr)
         return V(BOOL, z3.Select(E.alloc(st), v.z))
@@ -779,20 +782,19 @@ def apply_contract(E, c: FnContract, q, argmap, st, fr, node):
         binds["result"] = res
         if ty.is_reflike(c.returns) and c.returns.kind in ("list", "dict", "set"):
             pass
-    for e in c.ensures:
-        st.assume(E.sev_bool(e, view(st, dict(argmap)), cfr, binds))
+    # while the callee's postcondition is being ASSUMED, every fresh(x) in it also carries this call site's birth stamp
+    # (an object is fresh at exactly one call, so the stamp is well defined); the stamp survives path-condition pruning
+    E._births = getattr(E, "_births", 0) + 1
+    E._assume_site = E._births
+    try:
+        for e in c.ensures:
+            st.assume(E.sev_bool(e, view(st, dict(argmap)), cfr, binds))
+    finally:
+        E._assume_site = None
     if res is not None and not fr.spec:
         # keep the temporary reachable: facts about an intermediate result (p.runtime_status().get_ops(...)) must
         # survive path-condition pruning at the next loop head
         st.locals["$tmp%d" % next(_tmp_counter)] = res
-    if res is not None and any("fresh(result)" in e for e in c.ensures):
-        # prune-surviving consequences of freshness: not in the initial heap, and a birth stamp of this call site
-        if ("alloc",) not in E.heap0:
-            E.heap0[("alloc",)] = z3.Const("H0_alloc", E.key_sort(("alloc",)))
-        st.assume(z3.Not(z3.Select(E.heap0[("alloc",)], res.z)))
-        birth = E.ufn("birth", ty.RefSort, z3.IntSort())
-        E._births = getattr(E, "_births", 0) + 1
-        st.assume(birth(res.z) == E._births)
     E.wf_after_havoc(st, ms)
     return res if res is not None else V(NONE, ty.null)
 
